@@ -340,11 +340,20 @@ def harvest(ctx, rep, f_ga, f_sh):
     for s, c, m in picked:
         configs.append(("GA", dict(selection=s, crossover=c, mutation=m)))
     configs += [("SelfCGA", {}), ("PDPGA", {}), ("SHAGA", {})] * ctx.pick(1, 6)
+    # populations SMALLER than the configured parent count (the parents are drawn with repetition: 7 parents from 5 individuals)
+    small = [("GA", dict(selection=s_, crossover=c_, mutation="weak", _small=True))
+             for s_, c_ in zip(["rank", "proportional", "tournament_3", "rank", "tournament_k"],
+                               ["uniform_7", "uniform_prop_7", "uniform_rank_7", "uniform_tour_7", "uniform_k"])]
+    configs += small[: ctx.pick(3, 5)] if ctx.quick else small
     for kind, kw in configs:
+        kw = dict(kw)
+        is_small = kw.pop("_small", False)
         seed = ctx.rng.randrange(1 << 30)
         n = ctx.rng.randint(4, 8)
         pop = ctx.rng.randint(8, 10)
         tour, parents, rate = ctx.rng.randint(2, 4), ctx.rng.randint(2, 4), ctx.rng.choice([0.0, 0.125, 0.5, 1.0])
+        if is_small:
+            pop, tour, parents = ctx.rng.randint(4, 6), ctx.rng.randint(2, 3), ctx.rng.randint(6, 7)
         obj = L.Objective(ctx.rng.choice(["onemax", "plateau", "weighted", "const"]))      # const: every generation is a plateau
         records, shapes = [], []
         REC_NAMES = (["thefittest.utils.selections." + x for x in ("proportional_selection", "rank_selection", "tournament_selection")] +
